@@ -168,7 +168,144 @@ def showTap (internal : List UInt8) (leaves : List TapTree) : String :=
     tok root ++ " " ++ tok prog ++ " | " ++ ",".intercalate ((List.range leaves.length).map one)
   | _, _ => "err"
 
-def handle : List String → String
+/-! hardening-round ops: secondary entry points, values-are-values, configuration change -/
+
+def boolBit (b : Bool) : String := if b then "1" else "0"
+
+/-- accessor values of an address (`encv`) -/
+def addrExtras (a : Addr) : String :=
+  match a with
+  | .pkh h _ => "h160=" ++ tok h
+  | .sh h _ => "h160=" ++ tok h
+  | .wpkh hrp p => "hrp=" ++ ascii hrp ++ " wv=0 wp=" ++ tok p ++ " h160=" ++ tok p
+  | .wsh hrp p => "hrp=" ++ ascii hrp ++ " wv=0 wp=" ++ tok p
+  | .tr hrp p => "hrp=" ++ ascii hrp ++ " wv=1 wp=" ++ tok p
+  | .p2a _ => "-"
+  | .pk s id =>
+    match Secp.parsePubKey s with
+    | none => "badkey"
+    | some q =>
+      let c := Secp.serCompressed q
+      let u := Secp.serUncompressed q
+      "fmt=" ++ (if s.length = 33 then "1" else "0") ++ " pkh=" ++ ascii (checkEncode cksum4 (h160 s) id) ++
+        " c=" ++ tok c ++ " u=" ++ tok u
+
+def scriptFlags (s : List UInt8) : String :=
+  String.join [boolBit (extractPubKey s).isSome, boolBit (extractPubKeyHash s).isSome,
+    boolBit (extractScriptHash s).isSome, boolBit (extractWitnessPubKeyHash s).isSome,
+    boolBit (extractWitnessV0ScriptHash s).isSome, boolBit (extractWitnessV1KeyBytes s).isSome,
+    boolBit (isPayToAnchor s), boolBit (witnessProgramInfo s).isSome, boolBit (extractMultisig s).isSome,
+    boolBit (isNullData s), boolBit (isPushOnly (s.length + 1) s)]
+
+def showXtrV (s : List UInt8) (net : Net) : String :=
+  showXtr s net ++ " same flags=" ++ scriptFlags s ++ " wpi=" ++
+    (match witnessProgramInfo s with | some (v, p) => toString v ++ ":" ++ tok p | none => "-") ++ " ms=" ++
+    (match extractMultisig s with | some (r, n, _) => toString n ++ ":" ++ toString r | none => "-") ++ " rc=ok"
+
+def showBech (r : Except BechErr (List UInt8 × List Nat × BechVer)) (withVer : Bool) : String :=
+  match r with
+  | .ok (hrp, d, v) => "ok:" ++ tok hrp ++ ":" ++ natsTok d ++ (if withVer then ":" ++ (match v with | .v0 => "0" | .vM => "m") else "")
+  | .error e => "err:" ++ bechErrName e
+
+def obsXKey (k : Option XKey) : String :=
+  match k with
+  | none => "zeroed"
+  | some k =>
+    let pkb := pubKeyBytes secpCurve k
+    "/".intercalate [xs k, toString k.depth.toNat, toString k.childNum, toString (beNat k.parentFP), tok k.chainCode,
+      tok k.version, boolBit k.isPrivate, boolBit (k.key.length < 32),
+      ascii (checkEncode cksum4 (h160 pkb) Spec.mainNet.pkh), tok pkb,
+      (if k.isPrivate then tok (padLeft 32 k.key) else "-")]
+
+def deriveErrName : DeriveErr → String
+  | .maxDepth => "maxdepth" | .hardFromPub => "hardfrompub" | .invalidChild => "invalid" | .badPub => "other"
+
+/-- the `xk` walk: keys are values; `cur` is the index of the current key -/
+def xkWalk : List String → List (Option XKey) → Nat → List String → String
+  | [], _, _, acc => " ".intercalate acc.reverse ++ " same"
+  | op :: ops, keys, cur, acc =>
+    let k? := (keys.getD cur none)
+    let arg := (op.drop 1).toString
+    match k? with
+    | none => " ".intercalate (("usezeroed") :: acc).reverse
+    | some k =>
+      let push (r : Except DeriveErr XKey) : String :=
+        match r with
+        | .ok c => xkWalk ops (keys ++ [some c]) keys.length (obsXKey (some c) :: acc)
+        | .error e => xkWalk ops keys cur (("err:" ++ deriveErrName e) :: acc)
+      if op.startsWith "D" then
+        match arg.toNat? with
+        | some i => push (derive secpCurve hmac512 h160 k i)
+        | none => "bad-op"
+      else if op.startsWith "N" then
+        match arg.toNat? with
+        | some i => push (deriveNonStd secpCurve hmac512 h160 k i)
+        | none => "bad-op"
+      else if op.startsWith "U" then
+        match neuter secpCurve pubVer k with
+        | some c =>
+          -- Neuter of a public key returns the same object: no new key
+          if k.isPrivate then xkWalk ops (keys ++ [some c]) keys.length (obsXKey (some c) :: acc)
+          else xkWalk ops keys cur (obsXKey (some c) :: acc)
+        | none => xkWalk ops keys cur ("err:neuter" :: acc)
+      else if op.startsWith "C" then
+        match hexToList? arg with
+        | some v =>
+          if v.length ≠ 4 then xkWalk ops keys cur ("err:clone" :: acc)
+          else
+            let c : XKey := { k with version := v }
+            xkWalk ops (keys ++ [some c]) keys.length (obsXKey (some c) :: acc)
+        | none => "bad-op"
+      else if op.startsWith "S" then
+        match netOf? arg with
+        | some n =>
+          let c : XKey := { k with version := if k.isPrivate then n.hdPriv else n.hdPub }
+          xkWalk ops (keys.set cur (some c)) cur (obsXKey (some c) :: acc)
+        | none => "bad-op"
+      else if op.startsWith "Z" then
+        match arg.toNat? with
+        | some j => xkWalk ops (keys.set j none) cur (("zero" ++ toString j) :: acc)
+        | none => "bad-op"
+      else if op.startsWith "K" then
+        match arg.toNat? with
+        | some j => xkWalk ops keys j (("use" ++ toString j) :: acc)
+        | none => "bad-op"
+      else "bad-op"
+
+def validX (x : List UInt8) : Bool := x.length = 32 && (Secp.liftX (Secp.beNat x) false).isSome
+
+def cbErrName : CbErr → String
+  | .tooSmall => "toosmall" | .tooLarge => "toolarge" | .badLength => "badlength" | .pubkey => "pubkey"
+
+def showTap2 (priv : List UInt8) (leaves : List TapTree) : String :=
+  let d := Secp.beNat priv
+  match Secp.mulG d with
+  | none => "err"
+  | some pk =>
+    let internal := Secp.serCompressed pk
+    let base := showTap internal leaves
+    match assembleTree leaves with
+    | none => "err"
+    | some t =>
+      let x := Secp.xOnly pk
+      let root := t.hash tapLeafHash tapBranchTag
+      let (prog, _) := tapOutKey x root
+      let noscript := (tapOutKey x []).1
+      let d' := if pk.2 % 2 == 1 then Secp.n - d else d
+      let tw := Secp.beNat (taggedL "TapTweak" (x ++ root)) % Secp.n
+      let tweaked := (d' + tw) % Secp.n
+      let key (t : TapTree) : (UInt8 × List UInt8) := match t with | .leaf _ v s => (v, s) | _ => (0, [])
+      let ks := leaves.map key
+      let idx := ks.map (fun k => (List.range ks.length).foldl (fun acc i => if ks.getD i (0, []) == k then i else acc) 0)
+      base ++ " | noscript=" ++ tok noscript ++ " p2tr=" ++ tok ([0x51, 0x20] ++ prog) ++ " tweak=" ++
+        tok (nat32 tweaked) ++ ":1 idx=" ++ ",".intercalate (idx.map toString) ++ " again=same"
+
+def parseItems? (s : String) : Option (List (List UInt8)) :=
+  if s == "-" then some [] else (s.splitOn ":").mapM hexToList?
+
+def sha256L (b : List UInt8) : List UInt8 := BV.Sha256.hashList b
+
+def handle1 : List String → String
   | ["b58e", b] => match hexToList? b with
     | some b => if b58EncodeAlgo b = b58Encode b then tok (b58Encode b) else "model-mismatch"
     | none => "bad-op"
@@ -260,6 +397,96 @@ def handle : List String → String
   | ["tap", internal, leaves] => match hexToList? internal, parseLeaves? leaves with
     | some k, some ls => showTap k ls
     | _, _ => "bad-op"
+  | ["encv", kind, net, p] => match netOf? net, hexToList? p with
+    | some net, some p => match mkAddr kind net p with
+      | none => "err"
+      | some a => "ok " ++ showAddr a ++ " same sa=" ++ tok (match a with
+          | .pkh h _ => h | .sh h _ => h | .pk s _ => s | .wpkh _ q => q | .wsh _ q => q | .tr _ q => q
+          | .p2a _ => [0x4e, 0x73]) ++ " " ++ addrExtras a
+    | _, _ => "bad-op"
+  | ["xtrv", net, s] => match netOf? net, hexToList? s with
+    | some net, some s => showXtrV s net
+    | _, _ => "bad-op"
+  | ["bdec2", s] => match hexToList? s with
+    | some s =>
+      let g := bechDecode s
+      let nl := bechDecodeNoLimit s
+      let b256 := match g with
+        | .ok (hrp, d, _) => (match convertBits d 5 8 false with
+          | .ok r => "ok:" ++ tok hrp ++ ":" ++ natsTok r
+          | .error e => "err:" ++ bechErrName e)
+        | .error e => "err:" ++ bechErrName e
+      "g=" ++ showBech g true ++ " nl=" ++ showBech nl true ++ " d=" ++ showBech g false ++ " dn=" ++ showBech nl false ++
+        " b256=" ++ b256
+    | none => "bad-op"
+  | ["benc2", hrp, d] => match hexToList? hrp, parseNats? d with
+    | some hrp, some d => match convertBits d 8 5 true with
+      | .ok c => (match bechEncode hrp c .v0 with
+        | .ok s => "ok " ++ tok s
+        | .error e => "err:" ++ bechErrName e)
+      | .error e => "err:" ++ bechErrName e
+    | _, _ => "bad-op"
+  | ["wif2", id, c, key] => match hexToList? id, hexToList? key with
+    | some [id], some key =>
+      let w : Wif := ⟨key, c == "1", id⟩
+      let pub := match Secp.mulG (beNat key) with
+        | some q => if c == "1" then Secp.serCompressed q else Secp.serUncompressed q
+        | none => []
+      ascii (wifString cksum4 w) ++ " " ++ tok pub ++ " " ++
+        String.ofList (Spec.nets.map (fun n => if id == n.wif then '1' else '0')) ++ " " ++
+        (match decodeWIF cksum4 (wifString cksum4 w) with | .ok w' => boolBit (w' == w) | .error _ => "err")
+    | _, _ => "bad-op"
+  | ["xk", s, ops] => match hexToList? s with
+    | some s => match xkeyParse cksum4 validPK s with
+      | .ok k => xkWalk (if ops == "-" then [] else ops.splitOn ",") [some k] 0 [obsXKey (some k)]
+      | .error _ => "err:parse"
+    | none => "bad-op"
+  | ["pcb", cb, sc] => match hexToList? cb, hexToList? sc with
+    | some cb, some sc => match parseControlBlock validX cb with
+      | .error e => "err:" ++ cbErrName e
+      | .ok c => "ok " ++ tok [c.leafVer] ++ " " ++ boolBit c.parityOdd ++ " " ++ tok c.internalX ++ " " ++
+          toString c.path.length ++ " " ++ tok (rootFromProof tapLeafHash tapBranchTag ⟨0, c.leafVer, sc, c.path⟩) ++
+          " " ++ boolBit (c.bytes == cb)
+    | _, _ => "bad-op"
+  | ["tap2", priv, leaves] => match hexToList? priv, parseLeaves? leaves with
+    | some k, some ls => showTap2 k ls
+    | _, _ => "bad-op"
+  | ["nds", net, d] => match netOf? net, hexToList? d with
+    | some net, some d => match nullDataScript d with
+      | some s => "ok " ++ tok s ++ " " ++ showXtr s net
+      | none => "err"
+    | _, _ => "bad-op"
+  | ["mss", net, nreq, keys] => match netOf? net, nreq.toNat?, parseItems? keys with
+    | some net, some nreq, some keys =>
+      if keys.all validPK then
+        match multiSigScript (keys.map normPK) nreq with
+        | some s => "ok " ++ tok s ++ " " ++ showXtr s net
+        | none => "err"
+      else "err:key"
+    | _, _, _ => "bad-op"
+  | ["cpk", sig, wit] => match hexToList? sig, parseItems? wit with
+    | some sig, some wit => match computePkScript h160 sha256L sig wit with
+      | some (c, s) => "ok " ++ c.name ++ " " ++ tok s
+      | none => "err"
+    | _, _ => "bad-op"
+  | ["dynreg", hrp, prog] => match hexToList? hrp, hexToList? prog with
+    | some hrp, some prog =>
+      -- the same bech32m P2TR string before and after the network `hrp` is registered
+      let s := match encodeSegwit hrp 1 prog with | .ok s => s | .error _ => []
+      let net : Net := ⟨"dyn", 0x30, 0x32, 0xb0, hrp, [], []⟩
+      let dec (regs : List (List UInt8)) : String :=
+        match decodeAddress regs cksum4 validPK s Spec.mainNet with
+        | .ok a => "ok:" ++ kindName a ++ ":" ++ ascii (a.string cksum4) ++ ":" ++ boolBit (a.isForNet net) ++
+            boolBit (a.isForNet Spec.mainNet)
+        | .error e => "err:" ++ addrErrName e
+      ascii s ++ " before=" ++ dec Spec.registeredHrps ++ " after=" ++ dec (hrp :: Spec.registeredHrps)
+    | _, _ => "bad-op"
   | _ => "bad-op"
+
+/-- `conc` runs the sub-lines of one case (in Go: concurrently in goroutines); answers are joined -/
+def handle : List String → String
+  | ["conc", payload] =>
+    " ;; ".intercalate ((payload.splitOn ";").map (fun l => handle1 ((l.splitOn "/").filter (· ≠ ""))))
+  | l => handle1 l
 
 end BV.C16.Driver
